@@ -3,6 +3,7 @@
   consumers): nothing is ever put back, so
 
   * `NoIfInv`  : every processing call has mode 0/1, `kept = []`, and never reaches `procPutBack`
+                 (nor the two pcs after it, `procPbReadNc` / `procPbNotify`)
   * `QRange`   : `queue` is the contiguous id range `[a, nextEv)` for some `a`
   * `OrderInv` : per thread, the ids it consumed are increasing, its local `todo` is increasing and
                  larger than everything it consumed
@@ -21,6 +22,8 @@ def pcOK : PC → Prop
   | .procTake m => m ≤ 1
   | .procLoop m _ kept _ => m ≤ 1 ∧ kept = []
   | .procPutBack _ _ => False
+  | .procPbReadNc _ => False
+  | .procPbNotify _ => False
   | _ => True
 
 theorem pcOK_procPre (m : Nat) : pcOK (.procPre m) = (m ≤ 1) := rfl
@@ -29,6 +32,8 @@ theorem pcOK_procTake (m : Nat) : pcOK (.procTake m) = (m ≤ 1) := rfl
 theorem pcOK_procLoop (m : Nat) (todo kept : List Nat) (any : Bool) :
     pcOK (.procLoop m todo kept any) = (m ≤ 1 ∧ kept = []) := rfl
 theorem pcOK_procPutBack (kept : List Nat) (any : Bool) : pcOK (.procPutBack kept any) = False := rfl
+theorem pcOK_procPbReadNc (any : Bool) : pcOK (.procPbReadNc any) = False := rfl
+theorem pcOK_procPbNotify (any : Bool) : pcOK (.procPbNotify any) = False := rfl
 
 def thOK (th : Thread) : Prop := (∀ c ∈ th.prog, ∀ k, c ≠ Call.processIf k) ∧ pcOK th.pc
 
@@ -46,6 +51,7 @@ theorem noIf_self {s : State} {t ch : Nat} {s' : State} (h : step s t ch = some 
   step_cases h th2 hg hpc
   all_goals
     rw [hg'] at hg; cases hg
+  case procPbNotify => rw [hpc] at hpc'; exact absurd hpc' id
   case enqNotify | dqnNotify =>
     have hg2 := threads_notifyOne_of hg' (by simp [hpc]) ch
     intro th' hth'
@@ -239,7 +245,7 @@ theorem order_self {s : State} {t ch : Nat} {s' : State} (h : step s t ch = some
   step_cases h th2 hg hpc
   all_goals
     rw [hg'] at hg; cases hg
-  case enqNotify | dqnNotify =>
+  case enqNotify | dqnNotify | procPbNotify =>
     have hg2 := threads_notifyOne_of hg' (by simp [hpc]) ch
     simp only [setT_threads, setT_consumed, notifyOne_consumed, set_self hg2]
     refine ⟨hP, ?_⟩
@@ -310,7 +316,7 @@ theorem empty_self {s : State} {t ch : Nat} {s' : State} (h : step s t ch = some
   step_cases h th2 hg hpc
   all_goals
     rw [hg'] at hg; cases hg
-  case enqNotify | dqnNotify =>
+  case enqNotify | dqnNotify | procPbNotify =>
     have hg2 := threads_notifyOne_of hg' (by simp [hpc]) ch
     simp only [setT_threads, set_self hg2, Option.some.injEq, forall_eq']
     trivial
